@@ -9,7 +9,7 @@ Definition vjoin (a b : vc) : vc := fun t => Nat.max (a t) (b t).
 Definition vbump (t : nat) (a : vc) : vc := fun u => if Nat.eqb u t then S (a u) else a u.
 
 (* ---------- protocol parameters (what gen/CounterGen.v will supply) ---------- *)
-Record proto := { decr_release : bool; free_fence : bool; uniq_fence : bool }.
+Record proto := { incr_release : bool; decr_release : bool; free_fence : bool; uniq_fence : bool }.
 
 Record msg := { mval : nat; mview : vc }.
 Record thr := { clk : vc; seen : nat; pend : vc }.
@@ -50,7 +50,7 @@ Definition step (p : proto) (s : st) (t h : nat) (o : op) : st :=
   | Read => do_access (with_thr s t {| clk := c; seen := seen T; pend := pend T |}) t h c AR
   | Clone =>
       let m := msg_at s (top s) in
-      {| ms := ms s ++ [ {| mval := S (mval m); mview := vjoin (mview m) c |} ];
+      {| ms := ms s ++ [ {| mval := S (mval m); mview := if incr_release p then vjoin (mview m) c else mview m |} ];
          ths := updf (ths s) t {| clk := c; seen := S (top s); pend := pend T |};
          hds := hds s ++ [ {| owner := t; alive := true |} ];
          accs := accs s; freed := freed s; err := err s |}
@@ -88,16 +88,18 @@ Definition init : st :=
 Definition sched := list (nat * nat * op).
 Definition run (p : proto) (sc : sched) : st := fold_left (fun s '(t, h, o) => step p s t h o) sc init.
 
-Definition sound : proto := {| decr_release := true; free_fence := true; uniq_fence := true |}.
+Definition sound : proto := {| incr_release := true; decr_release := true; free_fence := true; uniq_fence := true |}.
+(* what the proof needs; the ordering of incr is free *)
+Definition sound_proto (p : proto) : bool := decr_release p && free_fence p && uniq_fence p.
 
 (* the weakened protocols really are racy: concrete schedules *)
-Example relaxed_decr_races : err (run {| decr_release := false; free_fence := true; uniq_fence := true |}
+Example relaxed_decr_races : err (run {| incr_release := true; decr_release := false; free_fence := true; uniq_fence := true |}
    [ (0,0,Clone); (0,1,Send 1); (1,1,Read); (1,1,Drop); (0,0,TryMut 2) ]) = true.
 Proof. vm_compute. reflexivity. Qed.
-Example no_uniq_fence_races : err (run {| decr_release := true; free_fence := true; uniq_fence := false |}
+Example no_uniq_fence_races : err (run {| incr_release := true; decr_release := true; free_fence := true; uniq_fence := false |}
    [ (0,0,Clone); (0,1,Send 1); (1,1,Read); (1,1,Drop); (0,0,TryMut 2) ]) = true.
 Proof. vm_compute. reflexivity. Qed.
-Example no_free_fence_races : err (run {| decr_release := true; free_fence := false; uniq_fence := true |}
+Example no_free_fence_races : err (run {| incr_release := true; decr_release := true; free_fence := false; uniq_fence := true |}
    [ (0,0,Clone); (0,1,Send 1); (1,1,Read); (1,1,Drop); (0,0,Drop) ]) = true.
 Proof. vm_compute. reflexivity. Qed.
 Example sound_same_schedule_ok : err (run sound [ (0,0,Clone); (0,1,Send 1); (1,1,Read); (1,1,Drop); (0,0,TryMut 2) ]) = false.
